@@ -377,6 +377,13 @@ func (s *c20Sys) post(body []byte) (int, c20Status, error) {
 // announces the full Content-Length, half-closes, and reads whatever the
 // server answers. status 0 = no parsable answer.
 func (s *c20Sys) postCut(body []byte, cut int) (int, c20Status) {
+	return s.postCutLen(body, cut, len(body))
+}
+
+// postCutLen is postCut with the announced Content-Length given explicitly:
+// with announce == cut the HTTP request is well formed and carries a
+// multipart body that simply ends early (a clean EOF for the server).
+func (s *c20Sys) postCutLen(body []byte, cut, announce int) (int, c20Status) {
 	n0 := s.gate.count()
 	addr := s.srv.Listener.Addr().String()
 	conn, err := net.Dial("tcp", addr)
@@ -384,7 +391,7 @@ func (s *c20Sys) postCut(body []byte, cut int) (int, c20Status) {
 		panic("c20 monitor: dial: " + err.Error())
 	}
 	defer conn.Close()
-	req := fmt.Sprintf("POST /upload HTTP/1.1\r\nHost: %s\r\nContent-Type: multipart/form-data; boundary=%s\r\nContent-Length: %d\r\nConnection: close\r\n\r\n", addr, c20Boundary, len(body))
+	req := fmt.Sprintf("POST /upload HTTP/1.1\r\nHost: %s\r\nContent-Type: multipart/form-data; boundary=%s\r\nContent-Length: %d\r\nConnection: close\r\n\r\n", addr, c20Boundary, announce)
 	if _, err := conn.Write(append([]byte(req), body[:cut]...)); err != nil {
 		panic("c20 monitor: write: " + err.Error())
 	}
@@ -730,7 +737,7 @@ func c20Check(c c20Case) *kit.Fail {
 		if err != nil {
 			return kit.Failf("upload-transport-error", "attempt: %v", err)
 		}
-	case "cut":
+	case "cut", "cutlen":
 		body := c20Build(c20UploadParts(u))
 		cut := c.Pos
 		if cut > len(body.Bytes) {
@@ -753,7 +760,11 @@ func c20Check(c c20Case) *kit.Fail {
 			mayFail = true
 			effect = cut < len(body.Bytes)
 		}
-		status, st = s.postCut(body.Bytes, cut)
+		if c.Kind == "cutlen" {
+			status, st = s.postCutLen(body.Bytes, cut, cut)
+		} else {
+			status, st = s.postCut(body.Bytes, cut)
+		}
 	case "abort":
 		pts := c20AbortPoints(u)
 		pt := pts[c.Pos%len(pts)]
@@ -817,6 +828,56 @@ func c20Check(c c20Case) *kit.Fail {
 
 	switch {
 	case status == 200:
+		if mustFail && c.Kind == "cutlen" {
+			// Known finding `cutlen-clean-eof-in-part-headers`: a WELL-FORMED request
+			// (Content-Length = bytes sent) whose multipart body ends inside the
+			// header block of part p >= 1. Go's mime/multipart then reports a bare
+			// io.EOF from NextPart and processUpload takes it for the end of the
+			// form: the files of the parts before p are committed. The signature is
+			// given only if the cut really lies in such a header block, every earlier
+			// part had arrived completely, at least one of them is a file, and the
+			// committed upload is exactly and atomically those earlier files.
+			body := c20Build(c20UploadParts(u))
+			cut := c.Pos
+			pidx := -1
+			for pi := range body.Start {
+				if pi >= 1 && cut >= body.Start[pi]+len("--"+c20Boundary+"\r\n") && cut < body.ContentStart[pi] {
+					pidx = pi
+				}
+			}
+			if pidx >= 1 {
+				early := u
+				nf := pidx
+				if nf > len(u.Files) {
+					nf = len(u.Files)
+				}
+				early.Files = append([]c19File(nil), u.Files[:nf]...)
+				if nf >= 1 {
+					if f := r.accepted("attempt ("+c20Desc(c)+"), taken as its first "+strconv.Itoa(nf)+" file(s)", early, st, w0, before); f != nil {
+						return f
+					}
+					if f := r.probes("after the attempt (" + c20Desc(c) + ")"); f != nil {
+						return f
+					}
+					if f := r.good("upload after the attempt ("+c20Desc(c)+")", c.After); f != nil {
+						return f
+					}
+					if f := r.probes("after one more good upload"); f != nil {
+						return f
+					}
+					if r.nar.f != nil {
+						return r.nar.f
+					}
+					c20Outcomes.Store(c.ID, effect)
+					if nf < len(u.Files) {
+						kit.Count("c20_cutlen_partial_upload_committed", 1)
+					} else {
+						kit.Count("c20_cutlen_committed_without_commit_field", 1)
+					}
+					return kit.Failf("cutlen-clean-eof-in-part-headers", "attempt (%s): body ends cleanly inside the headers of part %d; HTTP 200, upload %s committed with the first %d of %d file(s)", c20Desc(c), pidx, st.UploadID, nf, len(u.Files))
+				}
+			}
+		}
 		if mustFail {
 			return kit.Failf("committed-despite-"+c20FaultName(c, fired), "attempt (%s) was answered with HTTP 200 (upload %s)", c20Desc(c), st.UploadID)
 		}
@@ -961,7 +1022,9 @@ func c20Big(r *kit.Rand) c19Upload {
 func c20CountOps(c c20Case) int {
 	s, err := c20NewSys(c.Store)
 	if err != nil {
-		panic("c20 monitor: cannot set up: " + err.Error())
+		// the cases themselves will report the set-up problem (inconclusive);
+		// the enumeration must not bring the process down
+		return 12
 	}
 	defer s.close()
 	s.setUser(string(c.Attempt.User))
@@ -975,7 +1038,7 @@ func c20Enum(thorough bool, yield func(c20Case)) {
 	seed := kit.Seed()
 	nscen := 7
 	if thorough {
-		nscen = 40
+		nscen = 55
 	}
 	id := uint64(0)
 	emit := func(c c20Case) {
@@ -1092,6 +1155,9 @@ func c20Enum(thorough bool, yield func(c20Case)) {
 			c := base
 			c.Kind, c.Pos = "cut", o
 			emit(c)
+			// the same cut inside a well-formed request (Content-Length = cut)
+			c.Kind = "cutlen"
+			emit(c)
 		}
 	}
 }
@@ -1104,6 +1170,6 @@ func TestVerifC20Faults(t *testing.T) {
 			v, ok := c20Outcomes.Load(c.ID)
 			return ok && v.(bool) && (c.Kind != "none" || c.Invalid >= 0)
 		},
-		Rule: "7 (thorough 40) seeded scenarios: 0-2 earlier good uploads, an attempt of 1-3 files (one scenario large enough to make the server flush rows before the end), one more good upload; for each scenario EVERY position of one fault: each store operation (NewWriter/Write/Close/CloseWithError in call order, k = 1..n+1) on fs.MemFS and fs/local, also on top of a file without benchmark lines; body cut at every 5th byte offset plus +-3 around every part boundary (thorough: every offset) over raw TCP with the full Content-Length; unexpected fields abort/foo/File before, between, after the files; storage.Client Abort() before any file and after 0 / half / all bytes of each file; a file without benchmark lines or with a colliding label at each position. Non-trivial: the fault took effect (a store operation was hit, the body was really shortened, ...).",
+		Rule: "7 (thorough 55) seeded scenarios: 0-2 earlier good uploads, an attempt of 1-3 files (one scenario large enough to make the server flush rows before the end), one more good upload; for each scenario EVERY position of one fault: each store operation (NewWriter/Write/Close/CloseWithError in call order, k = 1..n+1) on fs.MemFS and fs/local, also on top of a file without benchmark lines; body cut at every 5th byte offset plus +-3 around every part boundary (thorough: every offset) over raw TCP with the full Content-Length; unexpected fields abort/foo/File before, between, after the files; storage.Client Abort() before any file and after 0 / half / all bytes of each file; a file without benchmark lines or with a colliding label at each position. Non-trivial: the fault took effect (a store operation was hit, the body was really shortened, ...).",
 	})
 }
